@@ -8,7 +8,7 @@ use crate::rng::{derive, Rng};
 use crate::run::RunReport;
 use std::collections::BTreeMap;
 
-pub const CLAIMED: &[&str] = &["C03"];
+pub const CLAIMED: &[&str] = &["C02", "C03", "C06", "C07", "C08"];
 
 pub fn make_header(prop: &str, build_profile: &str, verif_seed: u64, run_index: u64) -> Header {
     let run_seed = derive(derive(verif_seed, prop, 0), build_profile, run_index);
@@ -36,6 +36,74 @@ pub fn profile_for(prop: &str, thorough: bool) -> Profile {
             p.max_len = if thorough { 14 } else { 9 };
             p.knob_permille = 150;
         }
+        "C02" => {
+            p.class_a_permille = 250;
+            p.knob_permille = 200;
+            p.multi = true;
+            p.max_len = if thorough { 24 } else { 16 };
+            p.tune = Some(|w, _r, _d| {
+                w.insert = 45;
+                w.insert_stats = 25;
+                w.policy = 6;
+            });
+        }
+        "C06" => {
+            p.class_a_permille = 250;
+            p.knob_permille = 200;
+            p.max_len = if thorough { 24 } else { 16 };
+            p.tune = Some(|w, _r, _d| {
+                w.remove = 45;
+                w.insert = 30;
+            });
+        }
+        "C07" => {
+            p.max_len = if thorough { 30 } else { 18 };
+            p.tune = Some(|w, r, d| {
+                w.k1_insert = 12;
+                w.k1_remove = 10;
+                w.k2 = 25;
+                w.k3 = if d >= 3 { 18 } else { 1 };
+                w.k2_inv = if d >= 3 { 14 } else { 1 };
+                w.k3_inv = if d >= 4 { 12 } else { 1 };
+                w.repair = if r.chance(1, 2) { 3 } else { 0 };
+                w.insert = 10;
+                w.insert_stats = 0;
+                w.remove = 4;
+            });
+        }
+        "C04" => {
+            p.max_len = if thorough { 26 } else { 16 };
+            p.multi = true;
+            p.tune = Some(|w, r, d| {
+                w.k2 = 22;
+                w.k3 = if d >= 3 { 10 } else { 1 };
+                w.k2_inv = if d >= 3 { 8 } else { 1 };
+                w.k1_insert = 8;
+                w.remove = 10;
+                w.repair = if r.chance(1, 2) { 4 } else { 0 };
+                w.policy = 8;
+            });
+        }
+        "C15" => {
+            p.class_a_permille = 150;
+            p.knob_permille = 150;
+            p.multi = true;
+            p.max_len = if thorough { 26 } else { 16 };
+        }
+        "C08" => {
+            p.class_a_permille = 300;
+            p.knob_permille = 350;
+            p.max_len = if thorough { 24 } else { 16 };
+            p.tune = Some(|w, _r, d| {
+                w.repair = 22;
+                w.repair_adv = 16;
+                w.k2 = 22;
+                w.k3 = if d >= 3 { 10 } else { 1 };
+                w.k2_inv = if d >= 3 { 8 } else { 1 };
+                w.remove = 10;
+                w.policy = 8;
+            });
+        }
         _ => {}
     }
     p
@@ -49,10 +117,42 @@ fn run_generic<K: SimKernel<D>, const D: usize>(header: &Header, replay: Option<
             let mut ms: Vec<&mut dyn Monitor<K, D>> = vec![&mut m];
             history::run::<K, D>(header, &profile, replay, &mut ms)
         }
+        "C02" | "C06" | "C07" | "C08" => {
+            let mut m = monitors::valid::Valid {
+                c02: header.property == "C02",
+                c06: header.property == "C06",
+                c07: header.property == "C07",
+                c08: header.property == "C08",
+            };
+            let mut ms: Vec<&mut dyn Monitor<K, D>> = vec![&mut m];
+            history::run::<K, D>(header, &profile, replay, &mut ms)
+        }
+        "C15" => {
+            let mut m = monitors::c15::C15;
+            let mut ms: Vec<&mut dyn Monitor<K, D>> = vec![&mut m];
+            history::run::<K, D>(header, &profile, replay, &mut ms)
+        }
+        "C04" => {
+            let mut m = monitors::c04::C04;
+            let mut ms: Vec<&mut dyn Monitor<K, D>> = vec![&mut m];
+            history::run::<K, D>(header, &profile, replay, &mut ms)
+        }
         other => panic!("unknown property {other}"),
     }
 }
 
 pub fn run_header(header: &Header, replay: Option<&[OpRec]>, thorough: bool) -> RunReport {
     crate::dispatch!(header.dim, header.kernel.as_str(), run_generic, header, replay, thorough)
+}
+
+fn dump_generic<K: SimKernel<D>, const D: usize>(header: &Header, ops: &[OpRec]) -> Vec<crate::snap::Snap> {
+    let mut world: history::World<K, D> = history::World { objs: (0..history::SLOTS).map(|_| None).collect() };
+    for o in ops {
+        let _ = history::execute(&mut world, header, o);
+    }
+    world.objs.iter().flatten().map(crate::snap::Snap::of).collect()
+}
+
+pub fn dump_header(header: &Header, ops: &[OpRec]) -> Vec<crate::snap::Snap> {
+    crate::dispatch!(header.dim, header.kernel.as_str(), dump_generic, header, ops)
 }
